@@ -1418,10 +1418,32 @@ class Weaver:
                     mt.replace(a_, a_ + len(mk), '', woven=True)
         # regions: attribute a failing exit to the properties of the arm it lies in
         regions = []
+        rmsk = mask(mt.text)
         for rg in spec['regions']:
             m = re.search(rg['rx'], mt.text)
             if m:
-                regions.append((mt.text.count('\n', 0, m.start()), rg['props'], rg['rx']))
+                # extent of the region: the block (or the single arm expression) that the anchor opens; code that FOLLOWS the closing brace belongs
+                # to the enclosing region again (inserted code after an arm is not attributed to that arm)
+                j = m.end()
+                while j < len(rmsk) and rmsk[j].isspace():
+                    j += 1
+                k = j
+                depth = 0
+                while k < len(rmsk):
+                    c = rmsk[k]
+                    if c in '([{':
+                        if c == '{' and depth == 0:
+                            k = match_close(rmsk, k)
+                            break
+                        depth += 1
+                    elif c in ')]}':
+                        if depth == 0:
+                            break
+                        depth -= 1
+                    elif c in ',;' and depth == 0:
+                        break
+                    k += 1
+                regions.append((mt.text.count('\n', 0, m.start()), rg['props'], rg['rx'], mt.text.count('\n', 0, min(k, len(mt.text) - 1))))
         w.emit('    {')
         if r4:
             w.emit('        let mut this = self;')
@@ -1447,7 +1469,7 @@ class Weaver:
                             sha256=S.sha(it['start'], it['end']), line_start=unit_start, line_end=w.lineno,
                             body_start=body_start, rules=log, props_safety=spec['props_safety'],
                             props_internal=spec['props_internal'], fn=it['name'], notes=spec['notes'],
-                            regions=sorted([(body_start + ln, pr, rx) for ln, pr, rx in regions]), lost_anchors=lost, fuzzy_anchors=fuzzy, renames=renames,
+                            regions=sorted([(body_start + ln, pr, rx, body_start + ln_end) for ln, pr, rx, ln_end in regions]), lost_anchors=lost, fuzzy_anchors=fuzzy, renames=renames,
                             aids=[(a_, body_start + l0_, body_start + l1_) for a_, l0_, l1_ in aid_spans],
                             dropped_aids=sorted(dropped)))
 
